@@ -38,7 +38,7 @@ type Op struct {
 type Stats struct {
 	Delivered, Dropped, Dups, Own, Timeouts, Crashes, Restarts int
 	ByzProposals, ByzVotes, Equivocations, Splits, StalePolkas int
-	LateProposals, ByzClaims                                   int
+	LateProposals, ByzClaims, Starved                          int
 	MaxRound                                                   int64
 	Locked, Unlocked                                           bool
 	Reordered                                                  bool
@@ -899,9 +899,15 @@ func (d *Driver) Amnesia(op Op) bool {
 			p1 = n.ID
 		}
 	}
-	if p1 < 0 || in(net.Nodes[p1], lockers) {
+	if p1 < 0 || p1 == B.ID || (!net.Nodes[p1].Honest && op.C%2 == 1) {
+		// nobody proposes in round 1 (the proposer has left the height, or is Byzantine and stays
+		// silent): a locked node has to prevote its locked block, so that the nil prevotes of the
+		// others and of the Byzantine validators cannot add up to +2/3 and release the locks
+		return d.amnesiaStarved(H, rest, lockers, bs, B, X)
+	}
+	if in(net.Nodes[p1], lockers) {
 		d.Stats.Splits++
-		return true // the round-1 proposer is a locker (it re-proposes X) or B: the attack ends here
+		return true // the round-1 proposer is a locker (it re-proposes X): the attack ends here
 	}
 	var Y types.BlockID
 	if net.Nodes[p1].Honest {
@@ -950,6 +956,121 @@ func (d *Driver) Amnesia(op Op) bool {
 	d.Stats.Splits++
 	d.Stats.Equivocations++
 	d.logf("amnesia at h%d: lockers %d, B=n%d, X=%x Y=%x", H, len(lockers), B.ID, fp(X.Hash), fp(Y.Hash))
+	return true
+}
+
+// amnesiaStarved continues the amnesia script when round 1 has no proposal: everybody runs into
+// the propose timeout, the Byzantine validators prevote and precommit nil, and in round 2 they
+// support whatever an honest proposer puts on the table (or propose a fresh block themselves).
+func (d *Driver) amnesiaStarved(H int64, rest, lockers, bs []*Node, B *Node, X types.BlockID) bool {
+	net := d.Net
+	vals := rest[0].RS().Validators
+	for _, n := range rest {
+		if n.RS().Step == pbft.RoundStepPropose {
+			d.fireNewest(n) // propose timeout
+		}
+		d.ownAll(n) // prevotes of round 1
+	}
+	for _, b := range bs {
+		v := SignVote(b.ID, vals, H, 1, types.VoteTypePrevote, types.BlockID{})
+		for _, n := range rest {
+			net.Send(b.ID, n.ID, &pbft.VoteMessage{Vote: v})
+		}
+	}
+	d.deliverWhere(func(fl Flight) bool {
+		return isVoteOf(fl, types.VoteTypePrevote) && voteRound(fl) == 1 && in(net.Nodes[fl.To], rest)
+	})
+	for _, n := range rest {
+		if n.RS().Step == pbft.RoundStepPrevoteWait {
+			d.fireNewest(n)
+		}
+		d.ownAll(n) // precommits of round 1
+	}
+	for _, b := range bs {
+		v := SignVote(b.ID, vals, H, 1, types.VoteTypePrecommit, types.BlockID{})
+		for _, n := range rest {
+			net.Send(b.ID, n.ID, &pbft.VoteMessage{Vote: v})
+		}
+	}
+	d.deliverWhere(func(fl Flight) bool {
+		return isVoteOf(fl, types.VoteTypePrecommit) && voteRound(fl) == 1 && in(net.Nodes[fl.To], rest)
+	})
+	for _, n := range rest {
+		if n.RS().Step == pbft.RoundStepPrecommitWait {
+			d.fireNewest(n)
+		}
+	}
+	for _, n := range rest {
+		if rs := n.RS(); rs.Height != H || rs.Round != 2 {
+			d.Stats.Splits++
+			return true // the script ends here (somebody moved differently); nothing is asserted by it
+		}
+	}
+	// ---- round 2
+	v2 := rest[0].RS().Validators
+	p2 := d.nodeOfAddr(v2.Proposer().Address)
+	if p2 < 0 || p2 == B.ID {
+		d.Stats.Splits++
+		return true
+	}
+	var P types.BlockID
+	if net.Nodes[p2].Honest {
+		net.Nodes[p2].Pool.Push(types.Tx(fmt.Sprintf("amnesia-z-%d", H)))
+		d.ownAll(net.Nodes[p2])
+		rs := net.Nodes[p2].RS()
+		if rs.ProposalBlock == nil || rs.ProposalBlockParts == nil {
+			d.Stats.Splits++
+			return true
+		}
+		P = types.BlockID{Hash: rs.ProposalBlock.Hash(), PartsHeader: rs.ProposalBlockParts.Header()}
+	} else {
+		st := rest[0].CS.GetState()
+		var lc *types.Commit
+		if H > 1 {
+			lc = rest[0].RS().LastCommit.MakeCommit()
+		}
+		blk, parts := MakeBlock(st, lc, p2, []types.Tx{types.Tx(fmt.Sprintf("amnesia-z-%d", H))}, net.Cfg.PartSize)
+		P = types.BlockID{Hash: blk.Hash(), PartsHeader: parts.Header()}
+		for _, m := range ProposalMsgs(p2, H, 2, parts, -1, types.BlockID{}) {
+			for _, n := range rest {
+				net.Send(p2, n.ID, m)
+			}
+		}
+	}
+	d.learn(P)
+	d.deliverWhere(func(fl Flight) bool {
+		switch fl.Msg.(type) {
+		case *pbft.ProposalMessage, *pbft.BlockPartMessage:
+			return in(net.Nodes[fl.To], rest)
+		}
+		return false
+	})
+	for _, n := range rest {
+		d.ownAll(n)
+	}
+	for _, b := range bs {
+		for _, typ := range []byte{types.VoteTypePrevote, types.VoteTypePrecommit} {
+			v := SignVote(b.ID, v2, H, 2, typ, P)
+			for _, n := range rest {
+				net.Send(b.ID, n.ID, &pbft.VoteMessage{Vote: v})
+			}
+		}
+	}
+	d.deliverWhere(func(fl Flight) bool {
+		return isVoteOf(fl, types.VoteTypePrevote) && voteRound(fl) == 2 && in(net.Nodes[fl.To], rest)
+	})
+	for _, n := range rest {
+		if n.RS().Step == pbft.RoundStepPrevoteWait {
+			d.fireNewest(n)
+		}
+		d.ownAll(n)
+	}
+	d.deliverWhere(func(fl Flight) bool {
+		return isVoteOf(fl, types.VoteTypePrecommit) && voteRound(fl) == 2 && in(net.Nodes[fl.To], rest)
+	})
+	d.Stats.Splits++
+	d.Stats.Starved++
+	d.logf("amnesia (no proposal in round 1) at h%d: lockers %d, B=n%d, X=%x round-2 proposal %x by n%d", H, len(lockers), B.ID, fp(X.Hash), fp(P.Hash), p2)
 	return true
 }
 
